@@ -14,7 +14,7 @@ PROPS = {
         witness=[['c04', '--no-c15'], ['c02', '--random', '20000', '--programs', '600']],
         witness_thorough=[['c04', '--no-c15', '--depth', '3', '--random', '3000000'], ['c02', '--random', '2000000', '--programs', '20000']],
         level='proof',
-        technique='Verus contracts (requires/ensures/decreases + builder invariant) on the real push_* functions and on the real remove_unused_gates (marking, counting, renumbering and filtering loops with invariants; semantic lemma by induction over the wire number), extracted each run',
+        technique='Verus contracts (requires/ensures/decreases + builder invariant) on the real push_* functions and on the real CircuitBuilder::new, remove_unused_gates and build (loops with invariants, closure contracts; semantic lemmas by induction over the wire number), extracted each run',
         claim='Unbounded deductive proof (Verus/Z3) that every gate-emitting function of the real CircuitBuilder returns a wire whose '
               'Boolean function is the literal operation of its operands, re-establishes the builder invariant and preserves the '
               'function of every earlier wire - for every builder state (= every request history), every input assignment, '
@@ -23,17 +23,25 @@ PROPS = {
               'is closed under operands; the renumbering closure maps a kept wire to its old number minus the number of dropped gates up to it; the '
               'pruned gate list again reads earlier wires only; and for every input assignment every returned output wire and every wire of the '
               'renumbered panic record computes, in the pruned list, exactly the Boolean function the corresponding wire computed before '
-              '(wire_pres / rec_pres). Termination of the marking loop is NOT proved (exec_allows_no_decreases_clause). build (translation of the two '
-              'constant wires and of the input wires into the final SSA numbering) is covered only by a bounded differential search on the real code '
-              '(labelled bounded, not counted as proved).',
+              '(wire_pres / rec_pres). Termination of the marking loop is NOT proved (exec_allows_no_decreases_clause). CircuitBuilder::new: wire '
+              'numbering starts after the two constants and the inputs (shift == 2 + sum(input_gates)). build, for every builder satisfying that and '
+              'well-formedness: the returned SSA circuit has the same parties, 161 + |outputs| outputs, and for every input assignment output k computes '
+              '(ssa_val, the function the real SSA eval is proved to return, unit ssacirc) exactly what wire k of (panic record, requested outputs) '
+              'computed in the builder before pruning (val): constant false / true become the gates Xor(0,0) / Not(false) after the inputs, input wire i '
+              'becomes i - 2, x ^ true becomes NOT x; with at least one input bit the circuit satisfies the structural conditions Circuit::validate '
+              'checks (ssa_valid). The composition over TypedExpr::compile is not under contract; the bounded differential searches on the real code '
+              'stay as cross-checks.',
         note='Trusted: vstd specs of Vec/HashMap; derived Hash/Eq of BuilderGate obey the key model (admit); gate_counter+1 does not '
              'overflow usize (assume in push_gate); extraction rules R0-R3 (builder unit), R3, R16b, R22b, R31, R32 (unit prune: index loops for the '
              'iter_mut loops incl. the write-back of the two enum fields, map + collect as a loop, extend of an array as a verified helper); closure '
-             'contract on shift_gate_index_if_necessary; Z3/Verus. Unverified: build, composition over compile.',
+             'contracts on the closures of remove_unused_gates and build (R35: block bodies, immutable parameters); extend(iter.map(closure)) and '
+             'extend(closure(array)) as loops / verified helper (R33, R34); `mut self` (R28); the println! statistics block guarded by the constant-false '
+             'PRINT_OPTIMIZATION_RATIO dropped (R0b, the weaver checks the constant is false); Vec::shrink_to_fit changes the capacity only '
+             '(assume_specification); PanicResult::ok() returns constant wires only (external_body); 161 + |outputs| fits usize (precondition); '
+             'Z3/Verus. Unverified: composition over compile.',
         title='optimisations never change the computed function (gate emission: every push_* returns a wire '
-              'computing the literal operation, for every builder state and input assignment; dedup on and off; pruning + renumbering of remove_unused_gates preserves every output)',
-        unverified=['build (constant wires, input renumbering, panic-record wiring into the outputs): two bounded differential searches (request sequences; panic operation trees with distinct location fields), not proved',
-                    'termination of the marking loop of remove_unused_gates',
+              'computing the literal operation, for every builder state and input assignment; dedup on and off; remove_unused_gates and build preserve every output)',
+        unverified=['termination of the marking loop of remove_unused_gates',
                     'composition over TypedExpr::compile'],
     ),
     'C15': dict(
